@@ -55,6 +55,17 @@ def partitions(tier, seed):
             free = [i for i in range(n) if i not in (0, 1)]
             parts.append(sp.M(PROP, "C06", sp.rsp_key(), "%s-%s-len%d" % (sp.cc_name(cc), label, n), base, free,
                               budget=30 if quick else 150, cfg={"cc": cc, "enc": enc}))
+    for cc in sp.cc_list():
+        c = dict(G.commands(cc, minimal=True)).get("sess1")
+        if c is not None:
+            tr = sp.trace_of(sp.cmd_key(), c)
+            at = [x[2] for x in tr if x[4] == "attr"]
+            parts.append(sp.M(PROP, "C06", sp.cmd_key(), "%s-sess1-attrs" % sp.cc_name(cc), c, at, budget=30))
+        for label, enc, data in G.responses(cc, minimal=True):
+            if label in ("nosess", "sess1"):
+                for flag in (None, True):
+                    parts.append(sp.M(PROP, "C06", sp.rsp_key(), "%s-%s-flag%s" % (sp.cc_name(cc), label, flag), data, [], budget=20,
+                                      cfg={"cc": cc, "enc": flag}))
     for n in (0, 6, 10, 12) if quick else range(0, 23):
         parts.append(sp.S(PROP, "C06", sp.stream_key(), n, budget=30 if quick else 200))
     return parts
